@@ -34,7 +34,11 @@ type Property struct {
 type Import struct {
 	From  string
 	Rules []string
-	Why   string
+	// Keys, when set, narrows the import to obligations whose key starts with
+	// one of these words (a rule id may cover clauses the importing property
+	// does not rest on)
+	Keys []string
+	Why  string
 }
 
 // Control is a positive control: a seeded variant of one source file (analysed
@@ -169,12 +173,12 @@ func runProperty(p *Property, tier, only, overlaySpec string, controlMode bool) 
 			// an imported rule that produced nothing was not evaluated (an anchor of
 			// the other property no longer resolves): fail closed
 			c.floors[r] = 1
-			if n := ci.floors[r]; n > 1 {
+			if n := ci.floors[r]; n > 1 && len(im.Keys) == 0 {
 				c.floors[r] = n
 			}
 		}
 		for _, o := range ci.Obls {
-			if want[o.Rule] {
+			if want[o.Rule] && im.wantsKey(o.Key) {
 				c.Obls = append(c.Obls, o)
 				c.counts[o.Rule]++
 			}
@@ -212,6 +216,18 @@ func runProperty(p *Property, tier, only, overlaySpec string, controlMode bool) 
 		controls = runControls(p)
 	}
 	return c.finish(start, p.Explanation, p.EnumRule, controls)
+}
+
+func (im Import) wantsKey(key string) bool {
+	if len(im.Keys) == 0 {
+		return true
+	}
+	for _, k := range im.Keys {
+		if key == k || strings.HasPrefix(key, k+" ") {
+			return true
+		}
+	}
+	return false
 }
 
 // analyse loads the tree (with the overlay, if any), normalises it for the
@@ -323,7 +339,7 @@ func runControls(p *Property) map[string]interface{} {
 	for _, im := range importTable[p.ID] {
 		for _, ctl := range registry[im.From].Controls {
 			for _, r := range im.Rules {
-				if strings.HasPrefix(ctl.Expect, r) && (len(ctl.Expect) == len(r) || ctl.Expect[len(r)] == ' ') {
+				if strings.HasPrefix(ctl.Expect, r) && (len(ctl.Expect) == len(r) || ctl.Expect[len(r)] == ' ') && len(im.Keys) == 0 {
 					ctls = append(ctls, ctl)
 				}
 			}
